@@ -50,15 +50,39 @@ def modelBuild (m : List (Bytes × Bytes)) : String :=
   | .err _ => "err"
   | .panic => "panic"
 
-/-- Spec oracle for `build`, judged on the implementation's image and re-parsed map. -/
+/-- `needle` occurs in `hay` as a contiguous block. -/
+def hasInfix (needle : Bytes) : Bytes → Bool
+  | [] => needle.isEmpty
+  | hay@(_ :: tl) => needle.isPrefixOf hay || hasInfix needle tl
+
+/-- The name contains U+00A5, U+203E or U+2212 (UTF-8 `C2 A5`, `E2 80 BE`, `E2 88 92`): Shift-JIS
+encodes them, but not faithfully; such names are outside the property's quantifier. -/
+def lossyName (name : Bytes) : Bool :=
+  hasInfix [0xC2, 0xA5] name || hasInfix [0xE2, 0x80, 0xBE] name || hasInfix [0xE2, 0x88, 0x92] name
+
+/-- Spec oracle for `build`, judged on the implementation's image and re-parsed map.  The
+round-trip clause applies to whatever `serialize` accepts: if it returns an image, the image must
+conform for the INPUT names and parse back to exactly the input, also when a name has no
+Shift-JIS representation (then `enc` is `none` and no image can conform: the only acceptable
+answer is an error). -/
 def oracleBuild (m : List (Bytes × Bytes)) (impl : List String) : String :=
   if !decide (Spec.Pack.DistinctNames m) || m.length > 65535 then "ok skip" else
+  if m.any (fun kv => lossyName kv.1) then "ok skip lossy" else
+  let representable := m.all (fun kv => (enc kv.1).isSome)
   match impl with
+  | [_, "err"] =>
+    if representable then "FAIL serialize rejected representable names"
+    else "ok skip unrepresentable-name rejected"
   | _ :: "ok" :: imgHex :: back =>
     match bytesOfHex imgHex with
     | none => "FAIL unreadable image"
     | some img =>
-      if !decide (Spec.Pack.ConformsPack enc img m) then
+      if !representable then
+        "FAIL serialize accepted a name that has no Shift-JIS representation: " ++
+          (match filesOfFields back with
+           | some b => if b = m then "the stored name cannot be the input name" else "parse returns different names / contents than the input"
+           | none => "and the image does not parse")
+      else if !decide (Spec.Pack.ConformsPack enc img m) then
         "FAIL built image is not a pack image of the input files (header count / record / name / body)"
       else if !decide (Spec.Pack.Aligned32 img m.length) then
         "FAIL a file does not start on a 32-byte boundary"
@@ -175,7 +199,9 @@ def family : Family where
     match c with
     | _ :: "build" :: rest =>
       match filesOfFields rest with
-      | some m => ((), modelBuild m, oracleBuild m i)
+      | some m =>
+        if m.any (fun kv => lossyName kv.1) then ((), "skip lossy", "ok skip lossy")
+        else ((), modelBuild m, oracleBuild m i)
       | none => ((), "bad-case", "FAIL bad-case")
     | [_, "bigbuild", n, seed, mode] =>
       match n.toNat?, seed.toNat? with
